@@ -62,25 +62,28 @@ func stripLine(site string) string {
 }
 
 func normBlocked(s string) string {
-	// Drop object numbers so that the fingerprint is stable.
-	var out []string
+	// Fingerprint a deadlock by its cause: a thread blocked on a lock it holds
+	// itself, or else the set of distinct blocking operations (without pipe
+	// reads and harness joins, which are merely waiting for the stuck server).
+	set := map[string]bool{}
 	for _, part := range strings.Split(s, "; ") {
 		part = strings.TrimSpace(part)
-		if part == "" {
+		i := strings.Index(part, "@")
+		if i < 0 {
 			continue
 		}
-		f := strings.Fields(part)
-		// "T3(name)@label Kind#obj"
-		name := f[0]
-		if i := strings.Index(name, "("); i >= 0 {
-			name = name[i:]
+		lbl := strings.Fields(part[i+1:])[0]
+		if strings.Contains(lbl, "held-by-self") {
+			return "self-deadlock:" + lbl
 		}
-		lbl := ""
-		if i := strings.Index(f[0], "@"); i >= 0 {
-			lbl = f[0][i:]
-			name = strings.SplitN(name, "@", 2)[0]
+		if strings.HasPrefix(lbl, "pipe.") || strings.HasPrefix(lbl, "join") || strings.HasPrefix(lbl, "wait-") || lbl == "quiesce" {
+			continue
 		}
-		out = append(out, name+lbl)
+		set[lbl] = true
+	}
+	var out []string
+	for l := range set {
+		out = append(out, l)
 	}
 	sort.Strings(out)
 	return strings.Join(out, ",")
